@@ -3,6 +3,7 @@
 /verif/refactors) to /repo, runs every claimed quick check, reverts.  Any check that fires is a
 false alarm to triage.  usage: run_refactors.py [dir-prefix ...]"""
 import json, os, subprocess, sys, glob
+from concurrent.futures import ThreadPoolExecutor
 m = json.load(open('/verif/MANIFEST.json'))
 checks = [c['property_id'] for c in m['checks']]
 base = sys.argv[1] if len(sys.argv) > 1 else '/verif/refactors'
@@ -13,7 +14,8 @@ if st:
 os.makedirs('/tmp/seedrun', exist_ok=True)
 subprocess.run('cp /verif/known_findings.json /tmp/seedrun/', shell=True)
 res = {}
-env = dict(os.environ, VERIF_DIR='/tmp/seedrun', GOFLAGS='-mod=mod', GOPROXY='off', GOSUMDB='off', GOTOOLCHAIN='local')
+subprocess.run('cd /verif && ./check C20 quick >/dev/null 2>&1; cp /verif/bin/sheens-verif /tmp/seedrun/sheens-verif', shell=True)
+env = dict(os.environ, VERIF_BIN='/tmp/seedrun/sheens-verif', VERIF_DIR='/tmp/seedrun', GOFLAGS='-mod=mod', GOPROXY='off', GOSUMDB='off', GOTOOLCHAIN='local')
 for pf in sorted(glob.glob(base + '/C*/*/patch.diff') + glob.glob(base + '/C*-*/patch.diff')):
     d = os.path.dirname(pf)
     name = os.path.relpath(d, base).replace('/', '-')
@@ -30,8 +32,9 @@ for pf in sorted(glob.glob(base + '/C*/*/patch.diff') + glob.glob(base + '/C*-*/
         if b.returncode != 0:
             res[name] = {'error': 'does not build'}
             print(name, 'BUILD FAILED'); continue
-        for c in checks:
-            p = subprocess.run('./check %s quick' % c, shell=True, cwd='/verif', capture_output=True, text=True, env=env)
+        with ThreadPoolExecutor(10) as ex:
+            outs = list(ex.map(lambda c: subprocess.run('./check %s quick' % c, shell=True, cwd='/verif', capture_output=True, text=True, env=env), checks))
+        for c, p in zip(checks, outs):
             if p.returncode != 0:
                 fired.append(c)
                 detail[c] = [l.strip()[:400] for l in p.stdout.splitlines() if l.startswith('  VIOLATED') or l.startswith('  UNDECIDED')][:4]
@@ -42,6 +45,11 @@ for pf in sorted(glob.glob(base + '/C*/*/patch.diff') + glob.glob(base + '/C*-*/
     for c, ds in detail.items():
         for x in ds:
             print('    ', x[:300])
-json.dump(res, open('/tmp/refactor_results.json', 'w'), indent=1, sort_keys=True)
+out = '/tmp/refactor_results.json'
+if base == '/verif/refactors':
+    out = base + '/RESULTS.json'
+    if only and os.path.exists(out):
+        old = json.load(open(out)); old.update(res); res = old
+json.dump(res, open(out, 'w'), indent=1, sort_keys=True)
 tot = len(res); bad = sum(1 for v in res.values() if v.get('fired'))
 print('refactorings %d, false alarms on %d' % (tot, bad))
